@@ -28,7 +28,8 @@ def parsePeriod (e : Env) (value : Str) : Option TimePeriod :=
       | some [some d, o] => some ⟨none, none, some d, o⟩
       | _ => none
     else if startsWith value ['-', '-'] then
-      let value := if slice value 4 6 = ['-', '-'] then value.take 4 ++ value.drop 6 else value
+      let value := if slice value 4 6 = ['-', '-'] && (value.length = 6 || value.length = 7 || value.length = 12)
+        then value.take 4 ++ value.drop 6 else value
       if value.length = 4 || value.length = 5 || value.length = 10 then
         match parseDateArgs e value Tables.fmtGMonth with
         | some [some m, o] => some ⟨none, some m, none, o⟩
@@ -190,6 +191,16 @@ def XmlDateTime.timeline (v : XmlDateTime) : Int :=
 def XmlTime.timeline (v : XmlTime) : Int :=
   let minutes := ((0 : Int) * 24 + v.hour) * 60 + v.minute - v.offset.getD 0
   (minutes * 60 + v.second) * 1000000000 + v.frac
+
+/-- `hash(n)` of a Python int on a 64-bit CPython: sign · (|n| mod (2⁶¹ − 1)), and −1 ↦ −2 -/
+def pyHashInt (n : Int) : Int :=
+  let m : Int := Int.ofNat (n.natAbs % 2305843009213693951)
+  let h := if n < 0 then -m else m
+  if h = -1 then -2 else h
+
+/-- `XmlDateTime.__hash__` / `XmlTime.__hash__`: `hash(_timeline(self))` -/
+def XmlDateTime.hash (v : XmlDateTime) : Int := pyHashInt v.timeline
+def XmlTime.hash (v : XmlTime) : Int := pyHashInt v.timeline
 
 /-- `_cmp(a, b, op)` for the six operators, on the key -/
 inductive CmpOp | eq | ne | lt | le | gt | ge
